@@ -109,6 +109,9 @@ def run_shard(shard, tier, seed, wd, res):
         from props.c15 import sswu_special_inputs
         singles += [f.zero, f.one, f.neg(f.one), f.small(2)] + exceptional_inputs(g) + sswu_special_inputs(g)
         if g == 2:
+            from props.c15 import sswu_image_special_inputs
+            singles += sswu_image_special_inputs(rng, 4)
+        if g == 2:
             singles += [(0, 1), (0, Q - 1), (1, 1), (Q - 1, 0), (0, 2)]
         for a in singles:
             pairs += [(a, a), (a, f.neg(a)), (f.zero, a), (a, f.zero)]
